@@ -394,6 +394,13 @@ func (s *vKindSys) scoreOf(q []float32) func(id uint32, v []float32) float64 {
 }
 
 func (s *vKindSys) observe(h []string) {
+	canonBefore := vCanonVec(s.idx)
+	defer func() {
+		s.c.Evaluations++
+		if after := vCanonVec(s.idx); after != canonBefore {
+			s.c.Violation("search-modified-index", "", s.cfgS, h, fmt.Sprintf("index state before the queries [%s] after [%s]", canonBefore, after))
+		}
+	}()
 	mkey := ""
 	for qi, q := range s.qs {
 		s.c.Evaluations++
